@@ -41,7 +41,12 @@ def parseCert (s : String) : Option (Cert × Nat) :=
 `a`: DANE-TA record of the extra certificate -/
 def parseTlsa : String → Option Tlsa
   | "n" => some .none | "e" => some .eeMatch | "t" => some .taMatch | "m" => some .mismatch
-  | "u" => some .unusable | "f" => some .servfail
+  | "u" => some .unusable
+  -- the query is answered with an RCODE: f SERVFAIL (2), R REFUSED (5), N NOTIMP (4), F FORMERR (1)
+  | "f" => some (Tlsa.none.under 2) | "R" => some (Tlsa.none.under 5)
+  | "N" => some (Tlsa.none.under 4) | "F" => some (Tlsa.none.under 1)
+  -- G: no readable answer at all (an I/O error of the exchange, no RCODE): the lookup error as such
+  | "G" => some .servfail
   | "p" => some .eeOther | "i" => some .eeOther | "a" => some .taOther
   | _ => none
 
@@ -63,7 +68,10 @@ def parseAlias (s : String) : Option (Alias × Tlsa × Bool × Bool) :=
     let a ← if a == 's' then some Alias.secure else if a == 'i' then some Alias.insecure else none
     let t ← parseTlsa (String.singleton t)
     let ad ← bit? ad
-    let ce ← bit? ce
+    -- the CNAME-type query: 0 answered, 1 SERVFAIL, R REFUSED, N NOTIMP, F FORMERR
+    let ce ← if ce == '0' then some false else if ce == '1' then some (cnameQueryFails 2)
+      else if ce == 'R' then some (cnameQueryFails 5) else if ce == 'N' then some (cnameQueryFails 4)
+      else if ce == 'F' then some (cnameQueryFails 1) else if ce == 'G' then some true else none
     pure (a, t, ad, ce)
   | _ => none
 
@@ -99,13 +107,18 @@ def parseMXc (s : String) : Option (MX × Bool) :=
     let st ← parseStartTLS st
     let (ce, shape) ← parseCert ce
     let sm ← bitS? sm
-    let aad ← bitS? aad
+    -- `<aAD>`: the AD bit of the address answer, or how the address queries of discovery FAIL (f / R / N / F)
+    let (aad, arc) ← (match aad with
+      | "f" => some (true, 2) | "R" => some (true, 5) | "N" => some (true, 4) | "F" => some (true, 1)
+      | "G" => some (true, 2)   -- unreadable answer: an error of the exchange, like any failure RCODE
+      | b => (bitS? b).map (fun x => (x, 0)))
     let tad ← bitS? tad
     let tlv ← parseTlsa tl
     let rt ← bitS? rt
     let crash ← parseSlow slow
     if !(kindOK tl shape && kindOK alKind shape) then none else
-    pure ((⟨srv, up, st, ce, sm, aad, tad, tlv, rt, al.1, al.2.1, al.2.2.1, al.2.2.2⟩ : MX).crashedAt crash, crash != 0)
+    pure (((⟨srv, up, st, ce, sm, aad, tad, tlv, rt, al.1, al.2.1, al.2.2.1, al.2.2.2⟩ : MX).addrLookupAnswered arc).crashedAt crash,
+      crash != 0)
   match s.splitOn "." with
   | [srv, up, st, ce, sm, aad, tad, tl, rt, slow] =>
     core srv up st ce sm aad tad tl rt slow (.none, .none, false, false) "n"
